@@ -143,3 +143,19 @@ def test_F17_iradon_roi_equals_full():
     m = np.zeros(full.shape, bool); m[7] = True
     roi = R.run_iradon(sino, om, pad=7, shift=-2.0, workers=1, mask=m)
     assert np.abs(roi[m] - full[m]).max() < 1e-5 * np.abs(full).max()
+
+
+def test_F18_tensormap_strain_follows_new_ubi():
+    from ImageD11 import unitcell
+    from ImageD11.sinograms import tensor_map as tm
+    import contextlib
+    cell = [4., 4., 4., 90, 90, 90]
+    B0 = unitcell.unitcell(cell).B
+    a = np.linalg.inv(B0).reshape(1, 1, 1, 3, 3)
+    b = (np.linalg.inv(B0) @ np.diag([1.1, 1, 1])).reshape(1, 1, 1, 3, 3)
+    T = tm.TensorMap(maps={"UBI": a.copy(), "phase_ids": np.zeros((1, 1, 1), int)}, phases={0: unitcell.unitcell(cell, "P")})
+    with contextlib.redirect_stdout(io.StringIO()):
+        T.eps_sample
+        T.UBI = b.copy()
+        e = T.eps_sample
+    assert abs(e[0, 0, 0, 0, 0] - 0.1) < 1e-9
